@@ -83,6 +83,8 @@ func classify(name string) (family, key string) {
 		return strings.TrimPrefix(name, "ReplyTo"), "ReplyTo"
 	case "SetAddrHeader", "SetAddrHeaderIgnoreInvalid":
 		return name, ""
+	case "Reset":
+		return "Reset", ""
 	}
 	for _, s := range slots {
 		switch name {
@@ -153,6 +155,8 @@ func apply(m *mail.Msg, o op) (ok bool, known bool) {
 		err = m.ReplyTo(a(0))
 	case "ReplyToFormat":
 		err = m.ReplyToFormat(a(0), a(1))
+	case "Reset":
+		m.Reset()
 	case "SetAddrHeader":
 		if len(o.args) == 0 {
 			return false, false
@@ -308,7 +312,7 @@ func runCase(r *hx.Run, c hx.Case) {
 			r.Add(c, "PANIC", true)
 		}
 	}()
-	if c.Kind != "seq" || len(c.Args) < 1 {
+	if (c.Kind != "seq" && c.Kind != "hist") || len(c.Args) < 1 {
 		r.Add(c, "BAD-CASE", false)
 		return
 	}
@@ -332,6 +336,7 @@ func runCase(r *hx.Run, c hx.Case) {
 	// dropped from the bookkeeping (unknown) as soon as a call on it is outside what the reader covers.
 	shadow := map[string][]wantAddr{}
 	unknown := map[string]bool{}
+	var steps []string // "hist": the observation after every step
 	for i, o := range ops {
 		fam, key := classify(o.name)
 		var before []*netmail.Address
@@ -350,6 +355,36 @@ func runCase(r *hx.Run, c hx.Case) {
 		}
 		r.Dist["setter:"+o.name]++
 		trackShadow(shadow, unknown, o, fam, key, ok)
+		if fam == "Reset" {
+			// directly after Reset nothing of the address state may be left, whatever preceded (all six keys)
+			for _, k := range keyOrder {
+				if l := m.GetAddrHeader(k); len(l) > 0 {
+					r.Fail(c.ID, "reset-leaves-address", fmt.Sprintf("op %d Reset: %s still holds %s", i, k, addrListString(l)))
+				}
+			}
+			if s, err := m.GetSender(false); err == nil {
+				r.Fail(c.ID, "reset-leaves-address", fmt.Sprintf("op %d Reset: GetSender still returns %q", i, s))
+			}
+			if l, err := m.GetRecipients(); err == nil || len(l) > 0 {
+				r.Fail(c.ID, "reset-leaves-address", fmt.Sprintf("op %d Reset: GetRecipients still returns %q", i, l))
+			}
+		}
+		if c.Kind == "hist" {
+			so := "ERR"
+			if s, err := m.GetSender(false); err == nil {
+				so = hx.Hex([]byte(s))
+			}
+			rl, _ := m.GetRecipients()
+			rbs := make([][]byte, len(rl))
+			for j, x := range rl {
+				rbs[j] = []byte(x)
+			}
+			ls := make([]string, len(keyOrder))
+			for j, k := range keyOrder {
+				ls[j] = addrListString(m.GetAddrHeader(k))
+			}
+			steps = append(steps, so+";"+hx.HexList(rbs)+";"+strings.Join(ls, "|"))
+		}
 		if (fam == "Format" || fam == "AddFormat") && len(o.args) == 2 {
 			bare, perr := netmail.ParseAddress("<" + o.args[1] + ">")
 			switch {
@@ -465,6 +500,13 @@ func runCase(r *hx.Run, c hx.Case) {
 
 	obs := fmt.Sprintf("F=%s S=%s SF=%s R=%s L=%s H=%s E=%s", flagsOrDash(flags), opt(sender, serr), opt(full, ferr),
 		hx.HexList(rb), strings.Join(lists, "|"), hx.Hex(proj), env)
+	if c.Kind == "hist" {
+		if len(steps) == 0 {
+			obs += " P=-"
+		} else {
+			obs += " P=" + strings.Join(steps, "/")
+		}
+	}
 	nontrivial := len(ops) >= 2 && len(rcpts) >= 1
 	r.Add(c, obs, nontrivial)
 
@@ -673,6 +715,13 @@ var keyOfHeader = map[string]string{"To": "To", "Cc": "Cc", "Bcc": "Bcc", "From"
 
 // trackShadow applies the reference semantics of one call to the bookkeeping.
 func trackShadow(shadow map[string][]wantAddr, unknown map[string]bool, o op, fam, key string, ok bool) {
+	if fam == "Reset" {
+		for _, k := range keyOfHeader {
+			delete(shadow, k)
+			unknown[k] = false
+		}
+		return
+	}
 	var vals []string
 	var rawName *string // ...Format calls: the display name set is the name argument itself
 	switch fam {
@@ -944,6 +993,49 @@ func Run(r *hx.Run, replay []hx.Case) {
 		{{"From", []string{`"a b"@x.test`}}, {"To", []string{`"x>y"@x.test`, `"p@q"@x.test`}}},
 	} {
 		runCase(r, hx.Case{ID: r.NewID(), Kind: "seq", Args: []string{opsString(ops)}})
+	}
+	// histories with Reset: every address header incl. EnvelopeFrom set, Reset (or the setters called with nothing),
+	// then refilled with and without a new EnvelopeFrom / From — observed after every step (kind "hist")
+	fill := func(tag string, env, from bool) []op {
+		ops := []op{{"To", []string{"to." + tag + "@x.test", "Name " + tag + " <to2." + tag + "@x.test>"}}, {"AddCc", []string{"cc." + tag + "@x.test"}},
+			{"Bcc", []string{"bcc." + tag + "@y.test"}}, {"ReplyTo", []string{"reply." + tag + "@x.test"}}}
+		if from {
+			ops = append(ops, op{"From", []string{"from." + tag + "@x.test"}})
+		}
+		if env {
+			ops = append(ops, op{"EnvelopeFrom", []string{"bounce." + tag + "@x.test"}})
+		}
+		return ops
+	}
+	clearAll := []op{{"To", nil}, {"Cc", nil}, {"Bcc", nil}, {"SetAddrHeader", []string{"Reply-To"}}, {"SetAddrHeader", []string{"EnvelopeFrom"}}, {"SetAddrHeader", []string{"From"}}}
+	for _, second := range [][2]bool{{true, true}, {false, true}, {true, false}, {false, false}} {
+		for _, mid := range [][]op{{{"Reset", nil}}, clearAll, {{"Reset", nil}, {"Reset", nil}}} {
+			h := append(append(append([]op(nil), fill("one", true, true)...), mid...), fill("two", second[0], second[1])...)
+			runCase(r, hx.Case{ID: r.NewID(), Kind: "hist", Args: []string{opsString(h)}})
+			h2 := append(append(append([]op(nil), fill("one", true, false)...), mid...), fill("two", second[0], second[1])...)
+			runCase(r, hx.Case{ID: r.NewID(), Kind: "hist", Args: []string{opsString(append(h2, op{"Reset", nil}))}})
+		}
+	}
+	nh := 250
+	if r.Tier == "thorough" {
+		nh = 6000
+	}
+	for i := 0; i < nh && !r.Expired(); i++ {
+		var h []op
+		for seg := 0; seg < 2+g.rng.Intn(2); seg++ {
+			for j := 0; j < 1+g.rng.Intn(5); j++ {
+				h = append(h, g.op())
+			}
+			if g.rng.Intn(2) == 0 {
+				h = append(h, op{[]string{"EnvelopeFrom", "From", "ReplyTo"}[g.rng.Intn(3)], []string{g.addr()}})
+			}
+			h = append(h, op{"Reset", nil})
+		}
+		for j := 0; j < g.rng.Intn(5); j++ {
+			h = append(h, g.op())
+		}
+		r.Dist["shape:history-with-reset"]++
+		runCase(r, hx.Case{ID: r.NewID(), Kind: "hist", Args: []string{opsString(h)}})
 	}
 	// '@' + upper case inside quoted local parts, mixed-case domains, recipients differing only in letter case
 	for _, slot := range slots {
